@@ -316,6 +316,7 @@ def explore_histories(ctx, tier, search=False):
     n_hist = 60 if tier == "quick" else 400
     directory = tempfile.mkdtemp(prefix="c15-hist-")
     lines = []
+    shrunk = [0]
     try:
         for hi in range(n_hist):
             fam = G.gen_family(rng)
@@ -354,7 +355,8 @@ def explore_histories(ctx, tier, search=False):
                 if probe.oracle_failures:
                     # record the smallest sub-history that still fails on its own (the request alone, a pair, the prefix)
                     idx = None
-                    for cand in [[k]] + [[j, k] for j in range(k)]:
+                    shrunk[0] += 1
+                    for cand in ([[k]] + [[j, k] for j in range(k)]) if shrunk[0] <= 8 else []:   # (only the first few failures are minimised)
                         if fails_alone(handlers, reqs, cand, directory):
                             idx = cand
                             break
